@@ -732,6 +732,77 @@ def InOrder (E : Env) (top : TNodes) : Prop := (inOrderL E top 0).isSome = true
 
 instance (E : Env) (top : TNodes) : Decidable (InOrder E top) := inferInstanceAs (Decidable (_ = true))
 
+/-! ## `RangesSolid`: what `def_token!` turns into a non-structural token covers a character
+
+The fourth assumption predicate (w24), for the clause "zero-width tokens are only structural breaks".
+`TreeOK` allows an EMPTY range (`s = e`) everywhere but on a `Space`; `def_token!` over an empty range
+is a zero-width token. The ranges the translator hands to `def_token!` with a kind that is NOT a
+structural break are: the node of a `token!` arm other than `Linebreak` / `Parbreak` (`SmartQuote`,
+`Link`, the default arm), `Pattern::Placeholder`, `FieldAccess::field()`, `FuncCall::callee()`, every
+argument of a call (an ignored argument of `rgb` / `raw` / … becomes ONE `Unlintable` over the whole
+argument), `DestructuringItem::Named`'s `name()`. Each must be detached or cover at least one
+character. (`Text` and `Str` produce the inner parser's tokens only; `Space` is covered by `TreeOK`;
+a converted paragraph break, a `Linebreak`, a `Parbreak` are structural whatever their width.)
+Decidable, evaluated on every real tree (op `typok`, fourth field). -/
+
+/-- detached, or at least one character between the two bytes (the same count as `TreeOK`'s
+condition on a `Space`) -/
+def solidR (bs : List Nat) : BRange → Bool
+  | none => true
+  | some (s, e) => decide (1 ≤ charCount ((bs.drop s).take (e - s)))
+
+/-- the arms of `token!` whose token is a structural break -/
+def LeafKind.structural : LeafKind → Bool
+  | .linebreak => true
+  | .parbreak => true
+  | _ => false
+
+mutual
+def solidN (bs : List Nat) : TNode → Bool
+  | .text _ _ => true
+  | .space _ => true
+  | .str _ _ => true
+  | .letClosure _ => true
+  | .leaf k r => k.structural || solidR bs r
+  | .patPlaceholder r => solidR bs r
+  | .body _ _ es => solidL bs es
+  | .rec1 _ _ e => solidN bs e
+  | .recN _ _ es => solidL bs es
+  | .array _ items => solidIs bs items
+  | .dict _ items => solidIs bs items
+  | .fieldAccess _ target field => solidN bs target && solidR bs field
+  | .letBinding _ kind init => solidN bs kind && solidL bs init
+  | .setRule _ target cond args => solidN bs target && solidL bs cond && solidIs bs args
+  | .closure _ name params body => solidL bs name && solidIs bs params && solidN bs body
+  | .funcCall _ callee args => solidR bs callee && solidArgs bs args
+  | .patParen _ e p => solidN bs e && solidN bs p
+  | .patDestruct _ items => solidIs bs items
+def solidL (bs : List Nat) : TNodes → Bool
+  | .nil => true
+  | .cons n ns => solidN bs n && solidL bs ns
+def solidI (bs : List Nat) : TItem → Bool
+  | .pos n => solidN bs n
+  | .named _ name _ value => solidN bs name && solidN bs value
+  | .dnamed _ name pat => solidR bs name && solidN bs pat
+  | .keyed _ key value => solidN bs key && solidN bs value
+  | .spread _ es => solidL bs es
+def solidIs (bs : List Nat) : TItems → Bool
+  | .nil => true
+  | .cons i is => solidI bs i && solidIs bs is
+/-- the arguments of a call: the item's own range too (`parse_args_ignored`'s `token!(a, Unlintable)`) -/
+def solidArgs (bs : List Nat) : TItems → Bool
+  | .nil => true
+  | .cons i is => solidR bs i.range && solidI bs i && solidArgs bs is
+end
+
+/-- `rangesSolid bs top`: the Boolean the driver prints (op `typok`) -/
+def rangesSolid (bs : List Nat) (top : TNodes) : Bool := solidL bs top
+
+def RangesSolid (bs : List Nat) (top : TNodes) : Prop := rangesSolid bs top = true
+
+instance (bs : List Nat) (top : TNodes) : Decidable (RangesSolid bs top) :=
+  inferInstanceAs (Decidable (_ = true))
+
 /-! ## HTML: the `Space` clamp of `HtmlParser::parse` -/
 
 /-- `*v = (*v).clamp(0, 1)` on a `Space(v)` token; any other token is left alone -/
@@ -749,5 +820,18 @@ def htmlParse (src : List Char) (mask : List Span) (inner : List Char → List T
     Except Panic (List Tok) := do
   let toks ← maskParse src mask inner
   pure (htmlSpaceClamp toks)
+
+/-- `PlainEnglish::parse` as the TOTAL inner parser `parsers::Mask` is given: the model of the lexer
+never fails (`C02.parsePlainFull_total`; `plainInner_eq` in `Lemmas/Typst.lean`), so the `[]` of the
+second arm is never taken -/
+def plainInner (cls : Cls) (chunk : List Char) : List Tok :=
+  match parsePlainFull cls chunk with
+  | .ok toks => toks
+  | .error _ => []
+
+/-- `HtmlParser::default().parse(src)` with the mask of the grammar's `text` nodes as data and the
+model of `PlainEnglish` as the inner parser: what the driver runs (op `htmlparse`) -/
+def htmlParseSrc (cls : Cls) (src : List Char) (mask : List Span) : Except Panic (List Tok) :=
+  htmlParse src mask (plainInner cls)
 
 end Harper.Typst
